@@ -17,6 +17,7 @@ CONSTANTS
   Defect_NoTruncate = FALSE
   Defect_NoLiveLoad = FALSE
   Defect_ReinstallOnDup = FALSE
+  Defect_InstallKeepsTmp = FALSE
 VIEW View
 INVARIANTS InstalledIntact FollowerServesPrefix
 CHECK_DEADLOCK FALSE
